@@ -22,6 +22,8 @@ type Result struct {
 	Errors []string
 	// Touched lists "Type.field" for every field resolved on a concrete object (used for labels)
 	Touched map[string]int
+	// TouchedArgs lists "Type.field(args)" with the coerced arguments
+	TouchedArgs map[string]int
 	// Stats
 	NullRefs, DupInList int
 }
@@ -60,7 +62,7 @@ type execCtx struct {
 
 // Execute runs the operation. vars are raw JSON-decoded client variables.
 func (e *Executor) Execute(doc *ast.QueryDocument, opName *string, vars map[string]interface{}) *Result {
-	res := &Result{Touched: map[string]int{}}
+	res := &Result{Touched: map[string]int{}, TouchedArgs: map[string]int{}}
 	op, err := PickOperation(doc, opName)
 	if err != nil {
 		res.Errors = append(res.Errors, err.Error())
@@ -199,6 +201,7 @@ func (c *execCtx) executeSelectionSet(obj *object, ss ast.SelectionSet) (map[str
 			return nil, false
 		}
 		c.res.Touched[obj.typ+"."+f.Name]++
+		c.res.TouchedArgs[obj.typ+"."+f.Name+"("+argsKey(f.ArgumentMap(c.vars))+")"]++
 		raw := c.resolve(obj, f, fd)
 		var subs ast.SelectionSet
 		for _, gf := range g.fields {
